@@ -384,6 +384,8 @@ def parse_unit(path):
             # rewrite /regex/ => replacement   # why
             m2 = re.match(r"/(.*?)/\s*=>\s*(.*?)\s*(?:##\s*(.*))?$", full, re.S)
             cur.rewrites.append((m2.group(1), m2.group(2), m2.group(3) or ""))
+        elif d == "attr":
+            cur.opts.setdefault("attrs", []).append(rest.strip())
         elif d == "name":
             cur.emit_name = rest.strip()
         elif d == "impl":
@@ -563,6 +565,8 @@ def emit_fn(out, u, fs, rules_used):
         pass
     if where_text:
         sig_line += "\n    " + where_text
+    for a in fs.opts.get("attrs", []):
+        out.add(a, ("glue",))
     # line accounting: the signature occupies original lines first_line .. line_of(kbody)
     out.add_repo(sig_line, fs.file, first_line)
     def emit_clause_group(clauses, kinds_order, indent):
